@@ -114,6 +114,12 @@ def run_one(case):
     vs = []
     tag = f"{case['state']}/{case['input']}"
     stale = case["input"] == "stale-base-answer"
+    if data:
+        # an input on which the decoder alone does not come back (step or CPU-time bound) would wedge the node - and this harness - in
+        # the same way: the finding is reported from the decoder run and the live run is not attempted
+        pre = [v for v in c03.judge("msg", bytes(data)) if v.sig.endswith(("/step-bound", "/cpu-bound"))]
+        if pre:
+            return pre, info
     # a responder sends no request of its own until its watchdog period has passed: use a short one for that input
     with World(role=case["role"], apps=["s6a"], max_steps=900000, watchdog=1 if stale and case["role"] == "server" else 30) as w:
         st_ = case["state"]
